@@ -31,11 +31,16 @@ CHUNK = 128
 MENU = ['fail', 'setup_err', 'teardown_err', 'cleanup_err', 'body+teardown',
         'fail+teardown', 'sub:2,0,0', 'sub:1,1,0', 'sub:0,2,0', 'uxs', 'sysexit',
         'skip_dec', 'xfail', 'swap_fail', 'swap_pass', 'sub_skip',
-        'redir_sub_fail']
+        'redir_sub_fail',
+        # tests that close the stream objects they find in sys.stdout / sys.stderr
+        # (with --buffer these are the runner's capture buffers)
+        'close_out', 'close_fail']
 EXCS = ['ValueError', 'KeyError', 'User', 'Deep', 'BadStr', 'Unicode',
         'Recursion', 'Stop', 'OSError', 'Chained', 'Context', 'Chain3',
         'Group', 'Noted', 'Syntax', 'Indent', 'CauseCycle', 'ContextCycle',
-        'SelfCause', 'Empty', 'NIEbare', 'Blank', 'NLfirst']
+        'SelfCause', 'Empty', 'NIEbare', 'Blank', 'NLfirst',
+        # exceptions that cannot be put into a set / compared
+        'Unhashable', 'EqRaises', 'UnhashableCause']
 
 
 def _o_filter(case):
